@@ -36,7 +36,29 @@ REL = {"<=": "<", ">=": ">", "==": "!=", "!=": "=="}
 REL1 = {"<": "<=", ">": ">="}
 
 
-def sites(path):
+SIBLINGS = {}
+
+
+def load_siblings():
+    """CRYPTO_X_FOO -> another CRYPTO_X_* usize constant with a different value (next in name order)"""
+    txt = open(os.path.join(REPO, "src", "constants.rs")).read()
+    vals = {}
+    for m in re.finditer(r"pub const (CRYPTO_[A-Z0-9_]+): usize =\s*([^;]+);", txt):
+        vals[m.group(1)] = m.group(2).strip()
+    for _ in range(4):      # resolve aliases
+        for k, v in list(vals.items()):
+            if v in vals:
+                vals[k] = vals[v]
+    names = sorted(vals)
+    for n in names:
+        fam = "_".join(n.split("_")[:2])
+        cands = [x for x in names if x.startswith(fam + "_") and x != n and vals[x] != vals[n] and vals[x] != n and "MAX" not in x and "MAX" not in n]
+        if cands:
+            later = [x for x in cands if x > n]
+            SIBLINGS[n] = (later or cands)[0]
+
+
+def sites(path, ops=None):
     """[(line number, description, new line)]"""
     out = []
     lines = open(path).read().split("\n")
@@ -48,6 +70,25 @@ def sites(path):
             break
         st = ln.strip()
         if not st or st.startswith("//") or st.startswith("#[") or st.startswith("*") or st.startswith("use "):
+            continue
+        if ops and "more" in ops:
+            if re.match(r"^\s*(pub(\([a-z]+\))? )?(type|const|static) ", ln):
+                continue
+            # a validating call on its own line: `check(..)?;`
+            if re.match(r"^\s*[\w:\.]+\([^;]*\)\?;\s*$", ln) and "let " not in ln:
+                out.append((i, "delq " + st[:50], re.match(r"^\s*", ln).group(0) + "// (mutant: checked call removed)"))
+            # a public constant replaced by a sibling constant of the same family
+            for m in re.finditer(r"\bCRYPTO_[A-Z0-9_]+\b", ln):
+                if re.match(r"^\s*CRYPTO_[A-Z0-9_]+,?\s*$", ln) or "<" + m.group(0) in ln or "{ " + m.group(0) in ln or "; " + m.group(0) + "]" in ln:
+                    break       # an argument of an error message / a type argument
+                sib = SIBLINGS.get(m.group(0))
+                if sib:
+                    out.append((i, "const %s->%s" % (m.group(0)[7:], sib[7:]), ln[:m.start()] + sib + ln[m.end():]))
+            # `[..n]` <-> `[n..]`
+            for m in re.finditer(r"\[\.\.([A-Za-z_][\w:]*)\]", ln):
+                out.append((i, "range ..n->n..", ln[:m.start()] + "[" + m.group(1) + "..]" + ln[m.end():]))
+            for m in re.finditer(r"\[([A-Za-z_][\w:]*)\.\.\]", ln):
+                out.append((i, "range n..->..n", ln[:m.start()] + "[.." + m.group(1) + "]" + ln[m.end():]))
             continue
         # relational operators in conditions
         if re.search(r"\b(if|while)\b", ln) or re.search(r"\)\s*(<=|>=|==|!=|<|>)\s", ln):
@@ -64,7 +105,6 @@ def sites(path):
         if re.match(r"^\s*[\w\.\[\]\(\)&\*: ]+\.(zeroize|update|fill|copy_from_slice|resize|extend_from_slice|clear|rotate_left|rotate_right|"
                     r"apply_keystream|seek|truncate|push)\(.*\);\s*$", ln) and "let " not in ln:
             out.append((i, "del " + st[:50], re.match(r"^\s*", ln).group(0) + "// (mutant: statement removed)"))
-        # early-return guard deletion: `return Err(..)` single-line
         # +1 / -1
         for m in re.finditer(r"\s([+-])\s1\b(?!\d)", ln):
             if "=>" in ln:
@@ -116,16 +156,27 @@ def main():
     ap.add_argument("--jobs", type=int, default=10)
     ap.add_argument("--files", nargs="*")
     ap.add_argument("--limit", type=int, default=0)
+    ap.add_argument("--retry", default="")
+    ap.add_argument("--ops", default="", help="'more' = second operator set only (checked-call removal, sibling constants, range flips)")
     ap.add_argument("--out", default=os.path.join(VERIF, ".work", "mutants", "report.tsv"))
     a = ap.parse_args()
     files = a.files or DEFAULT_FILES
+    load_siblings()
     tasks = []
     for fn in files:
         p = os.path.join(REPO, fn)
         if not os.path.exists(p):
             continue
-        for (i, d, nl) in sites(p):
+        for (i, d, nl) in sites(p, a.ops):
             tasks.append([fn, i, d, nl])
+    if a.retry:
+        # only the survivors of an earlier report (after the checks were strengthened)
+        keep = set()
+        for l in open(a.retry):
+            r = l.rstrip("\n").split("\t")
+            if len(r) >= 4 and r[3] == "pass" and (len(r) < 5 or not r[4]) and "zeroize" not in r[2]:
+                keep.add((r[0], int(r[1]) - 1, r[2]))
+        tasks = [t_ for t_ in tasks if (t_[0], t_[1], t_[2]) in keep]
     if a.limit:
         tasks = tasks[::max(1, len(tasks) // a.limit)][:a.limit]
     print("%d mutants" % len(tasks))
